@@ -14,6 +14,11 @@ NOTE = ('Trusted: clang 14 front end, the extractor tools/theo_facts.cc, the Pyt
         'executed.')
 
 CLAIMS = {
+    'C04': ('recogniser skeleton extracted from the parser, bounded language equality against the reference grammar, structural rules for error recording/propagation and static rules',
+            'Decides, for every token sequence up to the bound (quick 9, thorough 14 tokens), that the real control flow of the parser '
+            'accepts it without recording an error iff it is a sentence of the reference grammar - exhaustive within the bound, not '
+            'sampled; a counterexample sentence is produced otherwise. Beyond the bound and for the generator-side static rules the '
+            'check is structural (error recorded and blocking on the failing branch).', '4/C04'),
     'C14': ('regex -> DFA construction for the flex specification with flex disambiguation; decoded-table automaton equivalence; AST rules on the generated yylex; CFG rules on scan()',
             'Decides, on the automaton of the specification (all inputs at once), totality, the keyword table in both directions against '
             'the documented spellings, action/enum agreement and absence of shadowed rules; proves the committed tables equivalent to the '
